@@ -61,6 +61,8 @@ class Val:
     num: Any = None  # known magnitude in SymPy canonical scale (pure numbers: the value)
     extra: Any = None
     why: str = ""
+    ident: Optional[str] = None  # identity of the symbol object: defining construct (module:line:col)
+    display: Optional[str] = None  # display (code) name when statically known
 
     def __repr__(self) -> str:
         if self.kind == "unknown":
@@ -757,7 +759,12 @@ class Interp:
     def lib_call(self, qual: str, n: ast.Call) -> Optional[Val]:
         args = n.args
         if qual == C_SYMBOL:
-            return self.mk(self.dim_arg(self.positional_or_kw(n, 1, "dimension")), "expr")
+            v = self.mk(self.dim_arg(self.positional_or_kw(n, 1, "dimension")), "expr")
+            if v.kind in ("expr", "any"):
+                v = Val(v.kind, v.dim, v.num, v.extra, v.why)
+                v.ident = f"{self.env.name}:{n.lineno}:{n.col_offset}"
+                v.display = _lit_str(self.positional_or_kw(n, 0, "display_symbol"))
+            return v
         if qual == C_FUNCTION:
             argl = self.positional_or_kw(n, 1, "arguments")
             nargs = len(argl.elts) if isinstance(argl, (ast.List, ast.Tuple)) and not any(isinstance(e, ast.Starred) for e in argl.elts) else None
@@ -765,7 +772,7 @@ class Interp:
                 self.ev(argl)
             v = self.mk(self.dim_arg(self.positional_or_kw(n, 2, "dimension")), "func")
             if v.kind == "func":
-                v.extra = {"nargs": nargs, "decl": n}
+                v.extra = {"nargs": nargs, "decl": n, "variadic": argl is None or (isinstance(argl, ast.Constant) and argl.value is None)}
             return v
         if qual == C_INDEXED:
             return self.mk(self.dim_arg(self.positional_or_kw(n, 2, "dimension")), "indexed")
@@ -780,11 +787,15 @@ class Interp:
                 nargs = len(argl.elts) if isinstance(argl, (ast.List, ast.Tuple)) and not any(isinstance(e, ast.Starred) for e in argl.elts) else None
                 if argl is not None:
                     self.ev(argl)
-                extra = {"nargs": nargs, "decl": n}
-            if src.kind in ("expr", "func", "indexed"):
-                return Val(kind, src.dim, extra=extra)
-            if src.kind == "any":
-                return Val("any", extra="symbol")
+                extra = {"nargs": nargs, "decl": n, "variadic": argl is None or (isinstance(argl, ast.Constant) and argl.value is None)}
+            if src.kind in ("expr", "func", "indexed", "any"):
+                v = Val(kind, src.dim, extra=extra) if src.kind != "any" else Val("any", extra="symbol")
+                v.ident = f"{self.env.name}:{n.lineno}:{n.col_offset}"
+                ds, sub = self.positional_or_kw(n, 99, "display_symbol"), self.positional_or_kw(n, 99, "subscript")
+                base = _lit_str(ds) if ds is not None else src.display
+                if base is not None and (sub is None or _lit_str(sub) is not None):
+                    v.display = base + (f"_{_lit_str(sub)}" if sub is not None and _lit_str(sub) else "")
+                return v
             return UNKNOWN(f"clone of {src.kind}: {src.why}")
         if qual in SYMBOLIC_WRAPPERS:
             return self.strip_num(self.ev(args[0])) if args else UNKNOWN("wrapper without argument")
